@@ -270,7 +270,7 @@ class Ctx:
             self.transitions += r.generated
         if expect_ok and not r.ok:
             raise Machinery(f"TLC {module}: unexpected violation of {r.violated}\n{r.raw[-3000:]}")
-        if r.distinct == 0:
+        if expect_ok and r.distinct == 0:
             raise Machinery(f"TLC {module}: no states (vacuous)")
         return r
 
